@@ -16,6 +16,7 @@ with the cache enabled a stale flow can pass for up to one cache period; the his
 for histories with the cache off (`Sys.new fw 0`), and C18's `pass_implies_fresh` bounds what the cache can do.
 -/
 import Nebula.Lemmas.FwHist
+import Nebula.Lemmas.FwReloadNet
 
 namespace Nebula.Props.C19
 open Nebula.Net Nebula.Fw Nebula.Lemmas.Fw
@@ -87,6 +88,36 @@ theorem pass_is_revalidated (fw : Fw) (hv : fw.rulesVersion < 65536) (ops : List
     subst hx
     intro hp hn
     exact packet_revalidated s evs p incoming h hI hp hn hper
+
+/-- **unroutable_local_never_passes.** For every firewall state, conntrack content (the tuple tracked or not, its
+entry stamped with any rules version) and packet: if the local address is not in the routable networks of the
+firewall in force, `Drop` refuses — the conntrack fast path (whose revalidation only re-matches the rule tables,
+and a rule with `local_cidr: any` matches every local address) is never consulted — and conntrack / the routine
+cache stay as they were. -/
+theorem unroutable_local_never_passes (fw : Fw) (ct : Conntrack) (now : Nat) (cache : Cache) (p : Packet)
+    (incoming : Bool) (h : HostInfo) (hl : anyContains fw.routable p.localAddr = false) :
+    (drop fw ct now cache p incoming h).1 ≠ .pass ∧ (drop fw ct now cache p incoming h).2 = (ct, cache) :=
+  drop_unroutable fw ct now cache p incoming h hl
+
+/-- **pass_needs_routable_local.** In every history from every state, across any number of reloads (version wraps
+included, routine cache on or off): a packet passes only if its local address is routable for the firewall that
+was in force when it was judged. -/
+theorem pass_needs_routable_local (s : Sys) (ops : List Op) :
+    ∀ e ∈ (s.run ops).2, e.verdict = .pass → anyContains e.fw.routable e.pkt.localAddr = true :=
+  run_pass_routable s ops
+
+/-- **reload_dropping_network_cuts_flows.** For every state `s` (any conntrack content: flows established towards
+an unsafe network of the old certificate), every firewall `newFw` installed by `reloadFirewall` (built from the
+re-issued certificate; conntrack shared) and every later history without a further reload: no packet whose local
+address is outside `newFw`'s routable networks passes — a fresh packet of that tuple would be refused, so the
+tracked flow is cut, in both directions. -/
+theorem reload_dropping_network_cuts_flows (s : Sys) (newFw : Fw) (post : List Op)
+    (hnr : ∀ op ∈ post, Op.isReload op = false) :
+    ∀ e ∈ ((s.reload newFw).run post).2, anyContains newFw.routable e.pkt.localAddr = false → e.verdict ≠ .pass := by
+  intro e he hl hp
+  have h1 := run_pass_routable (s.reload newFw) post e he hp
+  rw [run_fw_const (s.reload newFw) post hnr e he, reload_routable] at h1
+  rw [hl] at h1; cases h1
 
 /-- **noop_reload_keeps.** A reload whose configuration did not change is the identity (the early return of
 `reloadFirewall`), and so is one whose configuration is refused. -/
@@ -166,5 +197,30 @@ example : ∃ c, aget samePkt ((Sys.new (fwWith [inboundUdp] 7) 0).packet dns tr
     ∧ ((fwWith [inboundUdp] 7).table c.incoming).matches dns c.incoming exHost.peer = true := by
   refine ⟨{ expires := 60000000000, incoming := true, rulesVersion := 7 }, ?_, rfl, rfl, ?_⟩ <;> decide
 example : addrCheck (fwWith [inboundUdp] 7).routable exHost.host dns = none := by decide
+
+/-! ### the witness of seeded change C19-5: a tracked flow to an unsafe network the re-issued certificate lost -/
+
+def exMyUnsafe : Cert := { exMy with unsafeNetworks := [{ addr := { fam := .v4, val := 0xc0a80000 }, len := 16 }] }
+
+def inboundAny : Rule := { inboundUdp with proto := 0 }
+
+/-- default_local_cidr_any, one inbound rule without local_cidr: its local side is "any". -/
+def fwCert (my : Cert) : Fw := (Fw.new my true 60000000000 60000000000 60000000000).addRules [inboundAny]
+
+def toUnsafe : Packet := { dns with localAddr := { fam := .v4, val := 0xc0a80105 }, localPort := 80, proto := 6 }
+
+def certVerdicts (ops : List Op) : List Verdict :=
+  (((Sys.new (fwCert exMyUnsafe) 0).run ops).2.map (·.verdict)).reverse
+
+-- flow to 192.168.1.5 established (inbound rule, reply on conntrack); reload with the certificate without
+-- 192.168/16: both directions refused with the local-address error although the entry is still tracked and the
+-- rule still matches; re-issuing the network within the timeout revives the flow
+example : certVerdicts [.packet toUnsafe true exHost, .packet toUnsafe false exHost, .reload (fwCert exMy),
+    .packet toUnsafe true exHost, .packet toUnsafe false exHost, .reload (fwCert exMyUnsafe),
+    .packet toUnsafe false exHost] = [.pass, .pass, .invalidLocal, .invalidLocal, .pass] := by decide
+example : anyContains (fwCert exMy).routable toUnsafe.localAddr = false := by decide
+example : ((fwCert exMy).table true).matches toUnsafe true exHost.peer = true := by decide
+example : ∀ op ∈ [Op.packet toUnsafe true exHost, Op.packet toUnsafe false exHost], Op.isReload op = false := by
+  simp [Op.isReload]
 
 end Nebula.Props.C19
